@@ -69,15 +69,18 @@ class SplitLoop(LoopSpec):
 
 
 def split_roles(fi):
-    """structural roles: the single while loop `while buf[off : off + 1]:` -> (off, buf)"""
+    """structural roles of the splitting loop: the single while loop that looks at `buf[off : off + 1]` - in its guard
+    (`while buf[off:off+1]:`) or in its body (`while True: t = buf[off:off+1]; if not t: return`) -> (off, buf)"""
     loops = [n for n in ast.walk(fi.node) if isinstance(n, (ast.While, ast.For))]
     if len(loops) != 1 or not isinstance(loops[0], ast.While):
         raise Unsupported(f"{fi.qualname}: expected exactly one while loop")
-    t = loops[0].test
-    if not (isinstance(t, ast.Subscript) and isinstance(t.value, ast.Name) and isinstance(t.slice, ast.Slice)
-            and isinstance(t.slice.lower, ast.Name)):
-        raise Unsupported(f"{fi.qualname}: loop guard is not `buf[off:off+1]`")
-    return t.slice.lower.id, t.value.id
+    for t in ast.walk(loops[0]):
+        if (isinstance(t, ast.Subscript) and isinstance(t.value, ast.Name) and isinstance(t.slice, ast.Slice)
+                and isinstance(t.slice.lower, ast.Name) and isinstance(t.slice.upper, ast.BinOp) and isinstance(t.slice.upper.op, ast.Add)
+                and isinstance(t.slice.upper.left, ast.Name) and t.slice.upper.left.id == t.slice.lower.id
+                and isinstance(t.slice.upper.right, ast.Constant) and t.slice.upper.right.value == 1):
+            return t.slice.lower.id, t.value.id
+    raise Unsupported(f"{fi.qualname}: the loop never looks at `buf[off:off+1]`")
 
 
 class GenItemsTask(Task):
